@@ -308,6 +308,8 @@ func (w *wWorld) stopHub() {
 	globals.hub.shutdown <- hd
 	<-hd
 	usersShutdown()
+	// terminated topics linger for a few (virtual) seconds to reject stragglers
+	time.Sleep(idleMasterTopicTimeout + time.Second)
 	synctest.Wait()
 }
 
